@@ -236,7 +236,11 @@ func c07Matrix(c *Case) {
 	vals := []xref.Expr{num(0), num(1), num(2.5), num(-1), mustParse("0 div 0"), mustParse("1 div 0"), mustParse("-1 div 0"), mustParse("number('x')"), mustParse("-0")}
 	// comparisons are exact on IEEE 754 doubles: neighbouring doubles are different numbers
 	near := [][2]string{{"0.1 + 0.2", "0.3"}, {"4503599627370497", "4503599627370496"}, {"0.30000000000000004", "0.3"}, {"1 div 3 * 3", "1"}, {"1.0000000000000002", "1"},
-		{"9007199254740993", "9007199254740992"}, {"100 * 1.1", "110"}, {"number('0.30000000000000004')", "0.3"}, {"0.1 * 3", "0.3"}, {"1e0", "1"}, {"123456789.12345678", "123456789.12345679"}}
+		{"9007199254740993", "9007199254740992"}, {"100 * 1.1", "110"},
+		// a number literal denotes the double nearest to its decimal spelling - the same one number('...') yields
+		{"1.14", "number('1.14')"}, {"4.56", "number('4.56')"}, {"1.36", "136 div 100"}, {"2.28", "number('2.28')"}, {"3.47", "number('3.47')"}, {"29.99", "number('29.99')"}, {"1.15", "number('1.15')"},
+		{"0.1234567890123456789", "number('0.1234567890123456789')"}, {"3.14159265358979323846", "number('3.14159265358979323846')"}, {"12345678901234567890", "number('12345678901234567890')"},
+		{"0.00000000000000000000001", "number('0.00000000000000000000001')"}, {"123456789.123456789", "number('123456789.123456789')"}, {".1234567890123456789", "number('.1234567890123456789')"}, {"number('0.30000000000000004')", "0.3"}, {"0.1 * 3", "0.3"}, {"1e0", "1"}, {"123456789.12345678", "123456789.12345679"}}
 	for _, pr := range near {
 		if pr[0] == "1e0" {
 			continue
